@@ -5,6 +5,7 @@ pub mod c12;
 pub mod c15;
 pub mod c16;
 pub mod c17;
+pub mod c18;
 pub mod c19;
 pub mod c20;
 pub mod smoke;
@@ -21,6 +22,7 @@ pub fn dispatch(ctx: &Ctx) -> i32 {
         "C15" => c15::run(ctx),
         "C16" => c16::run(ctx),
         "C17" => c17::run(ctx),
+        "C18" => c18::run(ctx),
         "C19" => c19::run(ctx),
         "C20" => c20::run(ctx),
         "SMOKE" => smoke::run(ctx),
